@@ -161,7 +161,8 @@ class SSHConfig:
             elif key == "proxycommand" and value.lower() == "none":
                 # Store 'none' as None - not as a string implying that the
                 # proxycommand is the literal shell command "none"!
-                context["config"][key] = None
+                # (first obtained value wins, within one block too)
+                context["config"].setdefault(key, None)
             # All other keywords get stored, directly or via append
             else:
                 if value.startswith('"') and value.endswith('"'):
